@@ -495,3 +495,18 @@ PROPS["C17"]["modes"] = PROPS["C17"]["modes"] + ["sched"]
 PROPS["C17"]["nontrivial"]["sched"] = _sched_nontrivial
 PROPS["C17"]["monitors"] = PROPS["C17"]["monitors"] + ["exitOk", "stopsOnInterrupt", "traceSpec"]
 PROPS["C17"]["rule"] += " || 'a failed regeneration stops everything' at scheduler level (manifest-generator steps with prerequisites, scripted failures): " + SCHED_RULE
+
+# -j / -k through parse_args of the real binary (verif_build constructs work::Options directly)
+for _p in ("C04", "C05"):
+    PROPS[_p]["modes"] = PROPS[_p]["modes"] + ["opts"]
+    PROPS[_p]["needs_n2bin"] = True
+    PROPS[_p]["nontrivial"]["opts"] = (lambda case, impl: True)
+PROPS["C04"]["monitors"] = PROPS["C04"]["monitors"] + ["cliJobsBounded", "cliAllRan"]
+PROPS["C05"]["monitors"] = PROPS["C05"]["monitors"] + ["cliBudgetRespected", "cliBudgetUsed", "cliRestStillBuilt", "cliExitReflectsFailure"]
+_OPTS_RULE = (" || the options as the REAL binary parses them (mode opts; the sched mode hands work::Options to run::build directly): "
+    "-k absent/1/2/3/5 x (1, 3, 4+2 good, 0+2 good) independent failing steps x -j 1/3 - failing commands started between min(k, n) and "
+    "min(n, k + j - 1), every good step built when the budget is never reached, exit status 1 iff something failed; -j 1/2/3/5 over 8 "
+    "independent steps and pools of depth 1/2/3/0/console over 6 - each command records how many run at that moment, the largest count is "
+    "at most -j and the pool's depth (an upper bound only: timing can lower the count, never raise it); thorough: + 60 / 30 random combinations.")
+PROPS["C04"]["rule"] += _OPTS_RULE
+PROPS["C05"]["rule"] += _OPTS_RULE
